@@ -45,6 +45,9 @@ func kinds(r *rand.Rand, T time.Duration) []blk.Kind {
 		// backlog time-out disabled (negative): only a release or - with eviction - the end of the context ends the wait
 		{Family: "queue", Ordering: "fifo", Evict: true, Backlog: 5, Timeout: -1},
 		{Family: "queue", Ordering: "lifo", Evict: false, Backlog: 5, Timeout: -1},
+		// ordered pools (pool.NewPool): the time-out argument itself, and "give me the default" (<= 0: one second)
+		{Family: "queue", Ordering: "fifo", Backlog: 5, Timeout: T, ViaPool: true, PoolTimeout: T},
+		{Family: "queue", Ordering: []string{"fifo", "lifo"}[r.IntN(2)], Backlog: 5, Timeout: time.Second, ViaPool: true, PoolTimeout: []time.Duration{0, -1, -time.Hour}[r.IntN(3)]},
 	}
 }
 
@@ -57,6 +60,10 @@ func run(t *testing.T, idx int64, r *rand.Rand, kindIdx, cmIdx, amIdx int, exhau
 		T = time.Duration(1+r.Int64N(int64(time.Hour))) + 1
 	}
 	k := kinds(r, T)[kindIdx]
+	if k.ViaPool {
+		T = k.Timeout
+		rt.Count("ordered_pool_cases", 1)
+	}
 	cm := cancelModes[cmIdx]
 	am := arriveModes[amIdx]
 	if k.Family != "deadline" {
@@ -425,12 +432,23 @@ func cancelAtHandoff(t *testing.T, idx int64, r *rand.Rand) {
 		w.Quiesce()
 		time.Sleep(rel - w.Now())
 		yields := []int{50, 500}[r.IntN(2)]
-		w.OnPoint("queue.before_handoff", func(*blk.Waiter) {
-			w.CancelWaiter(wt)
-			for i := 0; i < yields; i++ {
-				runtime.Gosched()
+		if r.IntN(2) == 0 {
+			w.OnPoint("queue.before_handoff", func(*blk.Waiter) {
+				w.CancelWaiter(wt)
+				for i := 0; i < yields; i++ {
+					runtime.Gosched()
+				}
+			})
+		} else {
+			// the context ends and the holder completes at once, in that order, with nothing in between: the release finds a
+			// next-in-line caller whose context is done but that has not left the backlog yet
+			if r.IntN(2) == 0 {
+				w.Spawn() // a second caller queued behind (or, LIFO, in front of) it
+				w.Quiesce()
 			}
-		})
+			w.CancelWaiter(wt)
+			rt.Count("cancel_immediately_followed_by_release_scenarios", 1)
+		}
 		w.Release(held[0], []string{"success", "ignore", "dropped"}[r.IntN(3)])
 		w.Quiesce()
 		snap = w.Snap("after-release-with-cancellation-at-the-hand-off")
@@ -773,7 +791,7 @@ func TestCheck(t *testing.T) {
 		ex      bool
 	}
 	var cells []cell
-	for k := 0; k < 9; k++ {
+	for k := 0; k < 11; k++ {
 		for c := 0; c < 6; c++ {
 			for a := 0; a < 4; a++ {
 				if a > 0 && k != 2 {
